@@ -766,6 +766,7 @@ class Storage:
                 ok, got = False, repr(e)
             rec.check('C12.ref_reads_lib', ok, lambda: f'{what}: literal evaluates to {str(got)[:500]}')
             return
+        import csv as _csv
         try:
             if frmat == 'csv':
                 delim = '\t' if kwargs.get('dialect') == 'excel-tab' else ','
@@ -773,7 +774,7 @@ class Storage:
             else:
                 got = refcodec.READERS[frmat](text)
             got = (list(got[0]), list(got[1]), [tuple(r) for r in got[2]])
-        except (refcodec.RefError, ValueError, IndexError) as e:
+        except (refcodec.RefError, ValueError, IndexError, _csv.Error) as e:
             got = f'reference reader failed: {e!r}'
         want = self._triple(info)
         rec.check('C12.ref_reads_lib', got == want,
